@@ -835,6 +835,7 @@ package xmpp
 //@   ensures [C04.newclient.domain]    err == nil ==> c != nil && c.config == config && config.parsedJid != nil && config.Domain == ite(old(config.Domain) != "", old(config.Domain), config.parsedJid.Domain)
 //@   ensures [C04.newclient.transport] (err == nil && typeof(c.transport) == *XMPPTransport) ==> c.transport.(*XMPPTransport) != nil && c.transport.(*XMPPTransport).Config.Domain == config.Domain && c.transport.(*XMPPTransport).Config.TLSConfig == config.TLSConfig
 //@   ensures [C04.newclient.insecure]  err == nil ==> config.Insecure == old(config.Insecure)
+//@   ensures [C14.newclient.jid]       err == nil ==> config.parsedJid != nil && config.parsedJid.Node == stanza.jLocal(old(config.Jid)) && config.Credential == old(config.Credential)
 //@   assigns *config
 //@   loop 1:
 //@     invariant config != nil && config.parsedJid != nil && config.Domain == old(config.Domain) && config.Insecure == old(config.Insecure) && config.TLSConfig == old(config.TLSConfig)
